@@ -18,15 +18,29 @@ pub struct El {
     pub name: String,
     pub attrs: Vec<(String, String)>, // (qualified name, value); namespace declarations are generated
     pub kids: Vec<Node>,
-    pub token: bool,  // text content is token-valued (whitespace around it is insignificant)
+    pub token: bool, // text content is token-valued (whitespace around it is insignificant)
     pub opaque: bool, // content is an opaque value (never rewritten inside)
 }
 
 pub fn el(ns: &'static str, name: &str, kids: Vec<Node>) -> El {
-    El { ns, name: name.into(), attrs: vec![], kids, token: false, opaque: false }
+    El {
+        ns,
+        name: name.into(),
+        attrs: vec![],
+        kids,
+        token: false,
+        opaque: false,
+    }
 }
 pub fn leaf(ns: &'static str, name: &str, text: &str, token: bool) -> Node {
-    Node::El(El { ns, name: name.into(), attrs: vec![], kids: vec![Node::Text(text.into())], token, opaque: false })
+    Node::El(El {
+        ns,
+        name: name.into(),
+        attrs: vec![],
+        kids: vec![Node::Text(text.into())],
+        token,
+        opaque: false,
+    })
 }
 pub fn empty(ns: &'static str, name: &str) -> Node {
     Node::El(el(ns, name, vec![]))
@@ -34,12 +48,12 @@ pub fn empty(ns: &'static str, name: &str) -> Node {
 
 #[derive(Clone, Debug, Default)]
 pub struct Style {
-    pub prefix: bool,                   // nc:/jc: prefixes instead of default namespace declarations
-    pub ws_between: bool,               // newline + indentation between elements
-    pub pad: Option<String>,            // element name whose text is padded with whitespace
-    pub comment_in: Option<String>,     // element name that gets a comment between its children (or before end)
-    pub comment_in_text: Option<String>,// element name that gets a comment inside its text
-    pub flip_empty: Option<String>,     // childless element name written in the other form (<x/> <-> <x></x>)
+    pub prefix: bool,     // nc:/jc: prefixes instead of default namespace declarations
+    pub ws_between: bool, // newline + indentation between elements
+    pub pad: Option<String>, // element name whose text is padded with whitespace
+    pub comment_in: Option<String>, // element name that gets a comment between its children (or before end)
+    pub comment_in_text: Option<String>, // element name that gets a comment inside its text
+    pub flip_empty: Option<String>, // childless element name written in the other form (<x/> <-> <x></x>)
     pub single_quotes: bool,
     pub reverse_attrs: bool,
     pub decl: bool,
@@ -48,7 +62,9 @@ pub struct Style {
 }
 
 fn esc(s: &str) -> String {
-    s.replace('&', "&amp;").replace('<', "&lt;").replace('>', "&gt;")
+    s.replace('&', "&amp;")
+        .replace('<', "&lt;")
+        .replace('>', "&gt;")
 }
 
 fn prefix_of(ns: &str) -> &'static str {
@@ -59,8 +75,19 @@ fn prefix_of(ns: &str) -> &'static str {
     }
 }
 
-fn write(e: &El, parent_ns: Option<&str>, st: &Style, depth: usize, out: &mut String, declared: &mut Vec<String>) {
-    let q = if st.prefix { format!("{}:{}", prefix_of(e.ns), e.name) } else { e.name.clone() };
+fn write(
+    e: &El,
+    parent_ns: Option<&str>,
+    st: &Style,
+    depth: usize,
+    out: &mut String,
+    declared: &mut Vec<String>,
+) {
+    let q = if st.prefix {
+        format!("{}:{}", prefix_of(e.ns), e.name)
+    } else {
+        e.name.clone()
+    };
     let mut attrs: Vec<(String, String)> = vec![];
     let mut pushed = false;
     if st.prefix {
@@ -77,7 +104,11 @@ fn write(e: &El, parent_ns: Option<&str>, st: &Style, depth: usize, out: &mut St
         attrs.reverse();
     }
     let qt = if st.single_quotes { '\'' } else { '"' };
-    let ind = if st.ws_between { format!("\n{}", "  ".repeat(depth)) } else { String::new() };
+    let ind = if st.ws_between {
+        format!("\n{}", "  ".repeat(depth))
+    } else {
+        String::new()
+    };
     out.push_str(&ind);
     out.push('<');
     out.push_str(&q);
@@ -85,7 +116,21 @@ fn write(e: &El, parent_ns: Option<&str>, st: &Style, depth: usize, out: &mut St
         let v = esc(v).replace(qt, if qt == '"' { "&quot;" } else { "&apos;" });
         out.push_str(&format!(" {k}={qt}{v}{qt}"));
     }
-    let collapse_default = e.kids.is_empty() && e.attrs.iter().all(|_| true) && !matches!(e.name.as_str(), "rpc-reply" | "data" | "capabilities" | "hello" | "configuration" | "policy-options" | "load-configuration-results" | "name" | "from" | "then");
+    let collapse_default = e.kids.is_empty()
+        && e.attrs.iter().all(|_| true)
+        && !matches!(
+            e.name.as_str(),
+            "rpc-reply"
+                | "data"
+                | "capabilities"
+                | "hello"
+                | "configuration"
+                | "policy-options"
+                | "load-configuration-results"
+                | "name"
+                | "from"
+                | "then"
+        );
     let as_empty = if e.kids.is_empty() {
         collapse_default != (st.flip_empty.as_deref() == Some(e.name.as_str()))
     } else {
@@ -123,7 +168,10 @@ fn write(e: &El, parent_ns: Option<&str>, st: &Style, depth: usize, out: &mut St
                 }
             }
         }
-        if st.comment_in.as_deref() == Some(e.name.as_str()) && !e.opaque && e.kids.iter().all(|k| matches!(k, Node::El(_))) {
+        if st.comment_in.as_deref() == Some(e.name.as_str())
+            && !e.opaque
+            && e.kids.iter().all(|k| matches!(k, Node::El(_)))
+        {
             out.push_str("<!-- end -->");
         }
         if st.ws_between && !e.opaque && e.kids.iter().any(|k| matches!(k, Node::El(_))) {
@@ -170,31 +218,117 @@ fn names(e: &El, pred: &dyn Fn(&El) -> bool, out: &mut Vec<String>) {
 /// all single-rewrite variants of a document, each labelled `<rewrite>@<target>`
 pub fn variants(root: &El) -> Vec<(String, Style)> {
     let mut v: Vec<(String, Style)> = vec![];
-    v.push(("prefix@*".into(), Style { prefix: true, ..Default::default() }));
-    v.push(("whitespace-between@*".into(), Style { ws_between: true, ..Default::default() }));
-    v.push(("attr-quotes@*".into(), Style { single_quotes: true, ..Default::default() }));
-    v.push(("attr-order@*".into(), Style { reverse_attrs: true, ..Default::default() }));
-    v.push(("xml-decl@*".into(), Style { decl: true, ..Default::default() }));
-    v.push(("comment@root".into(), Style { root_comment: true, ..Default::default() }));
+    v.push((
+        "prefix@*".into(),
+        Style {
+            prefix: true,
+            ..Default::default()
+        },
+    ));
+    v.push((
+        "whitespace-between@*".into(),
+        Style {
+            ws_between: true,
+            ..Default::default()
+        },
+    ));
+    v.push((
+        "attr-quotes@*".into(),
+        Style {
+            single_quotes: true,
+            ..Default::default()
+        },
+    ));
+    v.push((
+        "attr-order@*".into(),
+        Style {
+            reverse_attrs: true,
+            ..Default::default()
+        },
+    ));
+    v.push((
+        "xml-decl@*".into(),
+        Style {
+            decl: true,
+            ..Default::default()
+        },
+    ));
+    v.push((
+        "comment@root".into(),
+        Style {
+            root_comment: true,
+            ..Default::default()
+        },
+    ));
     // XML `document ::= prolog element Misc*`: comments, white space (and PIs) may follow the root
-    v.push(("comment@after-root".into(), Style { after_root: Some("<!-- after root -->"), ..Default::default() }));
-    v.push(("comments@after-root".into(), Style { after_root: Some("\n<!-- a --><!-- b -->\n"), ..Default::default() }));
-    v.push(("whitespace@after-root".into(), Style { after_root: Some("\n  \n"), ..Default::default() }));
+    v.push((
+        "comment@after-root".into(),
+        Style {
+            after_root: Some("<!-- after root -->"),
+            ..Default::default()
+        },
+    ));
+    v.push((
+        "comments@after-root".into(),
+        Style {
+            after_root: Some("\n<!-- a --><!-- b -->\n"),
+            ..Default::default()
+        },
+    ));
+    v.push((
+        "whitespace@after-root".into(),
+        Style {
+            after_root: Some("\n  \n"),
+            ..Default::default()
+        },
+    ));
     let mut t = vec![];
     names(root, &|e| e.token, &mut t);
     for n in t {
-        v.push((format!("pad-text@{n}"), Style { pad: Some(n.clone()), ..Default::default() }));
-        v.push((format!("comment-in-text@{n}"), Style { comment_in_text: Some(n), ..Default::default() }));
+        v.push((
+            format!("pad-text@{n}"),
+            Style {
+                pad: Some(n.clone()),
+                ..Default::default()
+            },
+        ));
+        v.push((
+            format!("comment-in-text@{n}"),
+            Style {
+                comment_in_text: Some(n),
+                ..Default::default()
+            },
+        ));
     }
     let mut c = vec![];
-    names(root, &|e| !e.opaque && (e.kids.is_empty() || e.kids.iter().all(|k| matches!(k, Node::El(_)))) && !e.kids.is_empty(), &mut c);
+    names(
+        root,
+        &|e| {
+            !e.opaque
+                && (e.kids.is_empty() || e.kids.iter().all(|k| matches!(k, Node::El(_))))
+                && !e.kids.is_empty()
+        },
+        &mut c,
+    );
     for n in c {
-        v.push((format!("comment@{n}"), Style { comment_in: Some(n), ..Default::default() }));
+        v.push((
+            format!("comment@{n}"),
+            Style {
+                comment_in: Some(n),
+                ..Default::default()
+            },
+        ));
     }
     let mut em = vec![];
     names(root, &|e| e.kids.is_empty(), &mut em);
     for n in em {
-        v.push((format!("empty-form@{n}"), Style { flip_empty: Some(n), ..Default::default() }));
+        v.push((
+            format!("empty-form@{n}"),
+            Style {
+                flip_empty: Some(n),
+                ..Default::default()
+            },
+        ));
     }
     v
 }
@@ -215,50 +349,116 @@ fn rpc_error(sev: &str, rich: bool) -> Node {
         kids.push(leaf(B, "error-app-tag", "app", true));
         kids.push(leaf(B, "error-path", "/a/b", true));
         kids.push(leaf(B, "error-message", "statement creation failed", true));
-        kids.push(Node::El(el(B, "error-info", vec![leaf(B, "bad-element", "route-filter", false), leaf(B, "session-id", "7", true)])));
+        kids.push(Node::El(el(
+            B,
+            "error-info",
+            vec![
+                leaf(B, "bad-element", "route-filter", false),
+                leaf(B, "session-id", "7", true),
+            ],
+        )));
     }
     Node::El(el(B, "rpc-error", kids))
 }
 
 fn reply_root(kids: Vec<Node>) -> El {
     let mut e = el(B, "rpc-reply", kids);
-    e.attrs = vec![("message-id".into(), "ID".into()), ("other".into(), "a\"b'c".into())];
+    e.attrs = vec![
+        ("message-id".into(), "ID".into()),
+        ("other".into(), "a\"b'c".into()),
+    ];
     e
 }
 
 pub fn reply_docs() -> Vec<(&'static str, &'static str, El)> {
-    let mut data = el(B, "data", vec![Node::El(el(X, "configuration", vec![leaf(X, "a", "1", false)]))]);
+    let mut data = el(
+        B,
+        "data",
+        vec![Node::El(el(
+            X,
+            "configuration",
+            vec![leaf(X, "a", "1", false)],
+        ))],
+    );
     data.opaque = true;
     vec![
         ("empty", "ok", reply_root(vec![empty(B, "ok")])),
-        ("empty", "errors", reply_root(vec![rpc_error("error", true), rpc_error("warning", false)])),
+        (
+            "empty",
+            "errors",
+            reply_root(vec![rpc_error("error", true), rpc_error("warning", false)]),
+        ),
         ("data", "data", reply_root(vec![Node::El(data.clone())])),
-        ("data", "errors", reply_root(vec![rpc_error("error", false)])),
-        ("data", "empty-data", reply_root(vec![Node::El(el(B, "data", vec![]))])),
+        (
+            "data",
+            "errors",
+            reply_root(vec![rpc_error("error", false)]),
+        ),
+        (
+            "data",
+            "empty-data",
+            reply_root(vec![Node::El(el(B, "data", vec![]))]),
+        ),
         ("bare", "bare-ok", reply_root(vec![])),
         ("bare", "errors", reply_root(vec![rpc_error("error", true)])),
-        ("load", "ok", reply_root(vec![Node::El(el(B, "load-configuration-results", vec![rpc_error("warning", false), empty(B, "ok")]))])),
-        ("load", "errors", reply_root(vec![Node::El(el(B, "load-configuration-results", vec![rpc_error("error", true), leaf(B, "load-error-count", "1", true)]))])),
+        (
+            "load",
+            "ok",
+            reply_root(vec![Node::El(el(
+                B,
+                "load-configuration-results",
+                vec![rpc_error("warning", false), empty(B, "ok")],
+            ))]),
+        ),
+        (
+            "load",
+            "errors",
+            reply_root(vec![Node::El(el(
+                B,
+                "load-configuration-results",
+                vec![
+                    rpc_error("error", true),
+                    leaf(B, "load-error-count", "1", true),
+                ],
+            ))]),
+        ),
     ]
 }
 
 pub fn hello_doc() -> El {
-    el(B, "hello", vec![
-        Node::El(el(B, "capabilities", vec![
-            leaf(B, "capability", mt::CAP_BASE10, true),
-            leaf(B, "capability", "urn:ietf:params:netconf:capability:url:1.0?scheme=http,ftp&x=1", true),
-            leaf(B, "capability", mt::CAP_JUNOS, true),
-        ])),
-        leaf(B, "session-id", "4711", true),
-    ])
+    el(
+        B,
+        "hello",
+        vec![
+            Node::El(el(
+                B,
+                "capabilities",
+                vec![
+                    leaf(B, "capability", mt::CAP_BASE10, true),
+                    leaf(
+                        B,
+                        "capability",
+                        "urn:ietf:params:netconf:capability:url:1.0?scheme=http,ftp&x=1",
+                        true,
+                    ),
+                    leaf(B, "capability", mt::CAP_JUNOS, true),
+                ],
+            )),
+            leaf(B, "session-id", "4711", true),
+        ],
+    )
 }
 
 fn route_filter(addr: &str, range: &str) -> Node {
-    Node::El(el(X, "route-filter", vec![
-        leaf(X, "address", addr, true),
-        leaf(X, "choice-ident", "prefix-length-range", true),
-        leaf(X, "choice-value", range, true),
-    ]))
+    Node::El(el(
+        X,
+        "route-filter",
+        vec![
+            leaf(X, "address", addr, true),
+            leaf(X, "choice-ident", "prefix-length-range", true),
+            leaf(X, "choice-value", range, true),
+        ],
+    ))
 }
 
 /// an installed (ephemeral) configuration as Junos renders it, wrapped in a get-config reply
@@ -266,38 +466,96 @@ pub fn installed_doc() -> El {
     let term = |fam: &str, filters: Vec<Node>| {
         let mut from = vec![leaf(X, "family", fam, true)];
         from.extend(filters);
-        Node::El(el(X, "term", vec![
-            leaf(X, "name", fam, false),
-            Node::El(el(X, "from", from)),
-            Node::El(el(X, "then", vec![empty(X, "accept")])),
-        ]))
+        Node::El(el(
+            X,
+            "term",
+            vec![
+                leaf(X, "name", fam, false),
+                Node::El(el(X, "from", from)),
+                Node::El(el(X, "then", vec![empty(X, "accept")])),
+            ],
+        ))
     };
-    let ps = el(X, "policy-statement", vec![
-        leaf(X, "name", "fltr-foo", false),
-        term("inet", vec![route_filter("192.0.2.0/24", "/24-/32"), route_filter("198.51.100.0/24", "/24-/24")]),
-        term("inet6", vec![route_filter("2001:db8::/32", "/32-/48")]),
-        Node::El(el(X, "then", vec![empty(X, "reject")])),
-    ]);
-    let data = el(B, "data", vec![Node::El(el(X, "configuration", vec![Node::El(el(X, "policy-options", vec![Node::El(ps)]))]))]);
+    let ps = el(
+        X,
+        "policy-statement",
+        vec![
+            leaf(X, "name", "fltr-foo", false),
+            term(
+                "inet",
+                vec![
+                    route_filter("192.0.2.0/24", "/24-/32"),
+                    route_filter("198.51.100.0/24", "/24-/24"),
+                ],
+            ),
+            term("inet6", vec![route_filter("2001:db8::/32", "/32-/48")]),
+            Node::El(el(X, "then", vec![empty(X, "reject")])),
+        ],
+    );
+    let data = el(
+        B,
+        "data",
+        vec![Node::El(el(
+            X,
+            "configuration",
+            vec![Node::El(el(X, "policy-options", vec![Node::El(ps)]))],
+        ))],
+    );
     reply_root(vec![Node::El(data)])
 }
 
 /// a running configuration with annotated policy statements (candidates)
 pub fn candidates_doc() -> El {
-    let mut ps = el(X, "policy-statement", vec![leaf(X, "name", "fltr-foo", false), Node::El(el(X, "then", vec![empty(X, "reject")]))]);
+    let mut ps = el(
+        X,
+        "policy-statement",
+        vec![
+            leaf(X, "name", "fltr-foo", false),
+            Node::El(el(X, "then", vec![empty(X, "reject")])),
+        ],
+    );
     ps.attrs = vec![
-        ("xmlns:jcmd".into(), "http://yang.juniper.net/junos/jcmd".into()),
-        ("jcmd:comment".into(), "/* bgpfu-fltr: AS-FOO AND { 0.0.0.0/0^8-24 } */".into()),
+        (
+            "xmlns:jcmd".into(),
+            "http://yang.juniper.net/junos/jcmd".into(),
+        ),
+        (
+            "jcmd:comment".into(),
+            "/* bgpfu-fltr: AS-FOO AND { 0.0.0.0/0^8-24 } */".into(),
+        ),
     ];
-    let mut ps2 = el(X, "policy-statement", vec![leaf(X, "name", "other", false), Node::El(el(X, "then", vec![empty(X, "accept")]))]);
+    let mut ps2 = el(
+        X,
+        "policy-statement",
+        vec![
+            leaf(X, "name", "other", false),
+            Node::El(el(X, "then", vec![empty(X, "accept")])),
+        ],
+    );
     ps2.attrs = vec![];
-    let data = el(B, "data", vec![Node::El(el(X, "configuration", vec![Node::El(el(X, "policy-options", vec![Node::El(ps), Node::El(ps2)]))]))]);
+    let data = el(
+        B,
+        "data",
+        vec![Node::El(el(
+            X,
+            "configuration",
+            vec![Node::El(el(
+                X,
+                "policy-options",
+                vec![Node::El(ps), Node::El(ps2)],
+            ))],
+        ))],
+    );
     reply_root(vec![Node::El(data)])
 }
 
 async fn run_reply(kind: &str, text: &str) -> String {
     let t = text.to_string();
-    reply::outcome(kind, move |id| t.replace("message-id=\"ID\"", &format!("message-id=\"{id}\"")).replace("message-id='ID'", &format!("message-id='{id}'"))).await
+    reply::outcome(kind, move |id| {
+        t.replace("message-id=\"ID\"", &format!("message-id=\"{id}\""))
+            .replace("message-id='ID'", &format!("message-id='{id}'"))
+    })
+    .await
 }
 
 fn run_agent_installed(text: &str) -> String {
@@ -315,11 +573,21 @@ fn run_agent_candidates(text: &str) -> String {
 
 pub fn main(opts: &Opts) {
     let mut sink = Sink::new();
-    let rt = tokio::runtime::Builder::new_current_thread().enable_all().build().unwrap();
-    let mut check = |family: &str, doc: &El, run: &mut dyn FnMut(&str) -> String, model: &dyn Fn(&str) -> Option<String>, sink: &mut Sink| {
+    let rt = tokio::runtime::Builder::new_current_thread()
+        .enable_all()
+        .build()
+        .unwrap();
+    let mut check = |family: &str,
+                     doc: &El,
+                     run: &mut dyn FnMut(&str) -> String,
+                     model: &dyn Fn(&str) -> Option<String>,
+                     sink: &mut Sink| {
         let base_text = render(doc, &Style::default());
         let base = run(&base_text);
-        sink.count(&format!("base.{family}.{}", base.split(':').next().unwrap()));
+        sink.count(&format!(
+            "base.{family}.{}",
+            base.split(':').next().unwrap()
+        ));
         for (label, st) in variants(doc) {
             let text = render(doc, &st);
             if text == base_text {
@@ -329,7 +597,11 @@ pub fn main(opts: &Opts) {
             progress(&case);
             let out = run(&text);
             progress_idle();
-            let verdict = if out == base { "ok".to_string() } else { format!("violation {label}") };
+            let verdict = if out == base {
+                "ok".to_string()
+            } else {
+                format!("violation {label}")
+            };
             sink.direct(&case, verdict);
             if let Some(line) = model(&text) {
                 sink.corr(&case, line, out.clone());
@@ -345,10 +617,19 @@ pub fn main(opts: &Opts) {
         check(
             &fam,
             &doc,
-            &mut |t| rt.block_on(async { tokio::time::timeout(Duration::from_secs(5), run_reply(kind, t)).await.unwrap_or("timeout".into()) }),
+            &mut |t| {
+                rt.block_on(async {
+                    tokio::time::timeout(Duration::from_secs(5), run_reply(kind, t))
+                        .await
+                        .unwrap_or("timeout".into())
+                })
+            },
             &|t| {
                 let t = t.replace("\"ID\"", "\"1\"").replace("'ID'", "'1'");
-                Some(format!("xml reply-for fixed {kind} 1 {}", crate::xmltok::tokenize(&t)))
+                Some(format!(
+                    "xml reply-for fixed {kind} 1 {}",
+                    crate::xmltok::tokenize(&t)
+                ))
             },
             &mut sink,
         );
@@ -357,11 +638,29 @@ pub fn main(opts: &Opts) {
         "hello",
         &hello_doc(),
         &mut |t| rt.block_on(async { hello::establish(t).await.0 }),
-        &|t| Some(format!("xml hello fixed 0 {} {}", crate::xmltok::uri_oracle(&crate::xmltok::spans(t)), crate::xmltok::tokenize(t))),
+        &|t| {
+            Some(format!(
+                "xml hello fixed 0 {} {}",
+                crate::xmltok::uri_oracle(&crate::xmltok::spans(t)),
+                crate::xmltok::tokenize(t)
+            ))
+        },
         &mut sink,
     );
-    check("installed", &installed_doc(), &mut |t| run_agent_installed(t), &|_| None, &mut sink);
-    check("candidates", &candidates_doc(), &mut |t| run_agent_candidates(t), &|_| None, &mut sink);
+    check(
+        "installed",
+        &installed_doc(),
+        &mut |t| run_agent_installed(t),
+        &|_| None,
+        &mut sink,
+    );
+    check(
+        "candidates",
+        &candidates_doc(),
+        &mut |t| run_agent_candidates(t),
+        &|_| None,
+        &mut sink,
+    );
     let _ = opts;
     sink.write(opts, "meta");
 }
